@@ -249,7 +249,7 @@ struct Gen
     std::vector<uint8_t> bigbuf;
     long budget = 256;     // elements still available to ordinary containers
     int maxn = 20;         // ordinary size ceiling
-    bool want_big = false; // the first container met gets a boundary / large size (<= 65535)
+    bool want_big = false; // containers may draw the "large" size class (255..65535) once
     bool in_big = false;
     int cdepth = 0, big_at = -1;
     // observations (non-trivial rule, labels)
@@ -257,56 +257,66 @@ struct Gen
 
     explicit Gen(Src &src) : s(&src), main(&src) {}
 
-    size_t begin_container()
+    // edepth = nesting depth of the element type (0 scalar / bytes).
+    // The size class is one draw whose value grows with the size (0, 1, 2..4, 5..maxn, large),
+    // so lowering that byte during shrinking walks a failing large case down to the small ones.
+    size_t begin_container(int edepth)
     {
         size_t n;
-        if (want_big)
-        {
-            static const uint32_t B[] = {255,   256,   257,   1000,  4095,  4096,  8191,  8192,
-                                         8193,  16383, 16384, 16385, 32767, 32768, 65534, 65535};
-            want_big = false;
-            n = main->below(4) ? B[main->below(16)] : (size_t)main->range(21, 65535);
-            // contents of a large container come from a counter-based stream keyed by the case
-            uint64_t x = main->u32() | 0x100000000ull;
-            bigbuf.resize(384 * 1024);
-            for (size_t i = 0; i + 8 <= bigbuf.size(); i += 8)
-            {
-                x += 0x9E3779B97F4A7C15ull;
-                uint64_t z = x;
-                z = (z ^ (z >> 30)) * 0xBF58476D1CE4E5B9ull;
-                z = (z ^ (z >> 27)) * 0x94D049BB133111EBull;
-                z ^= z >> 31;
-                memcpy(&bigbuf[i], &z, 8);
-            }
-            bigsrc = Src(bigbuf.data(), bigbuf.size());
-            s = &bigsrc;
-            in_big = true;
-            big_at = cdepth;
-            big = true;
-            if (n == 65535)
-                cap16 = true;
-        }
-        else if (in_big)
+        if (in_big)
             n = (size_t)s->below(3);
         else
         {
-            switch (s->weighted({4, 3, 4, 2}))
+            size_t cls = want_big ? s->weighted({4, 3, 4, 2, 13}) : s->weighted({4, 3, 4, 2});
+            if (cls == 4)
             {
-            case 0:
-                n = 0;
-                break;
-            case 1:
-                n = 1;
-                break;
-            case 2:
-                n = (size_t)s->range(2, 4);
-                break;
-            default:
-                n = (size_t)s->range(5, maxn);
+                static const uint32_t B[] = {255,   256,   257,   1000,  4095,  4096,  8191,  8192,
+                                             8193,  16383, 16384, 16385, 32767, 32768, 65534, 65535};
+                want_big = false;
+                size_t k = (size_t)main->below(21);
+                n = k < 16 ? B[k] : (size_t)main->range(21, 65535);
+                if (edepth >= 2 && n > 8192) // elements holding containers of containers: keep the case in the ms range
+                    n = 8192;
+                // contents of a large container come from a counter-based stream keyed by the case
+                uint64_t x = main->u32() | 0x100000000ull;
+                bigbuf.resize(384 * 1024);
+                for (size_t i = 0; i + 8 <= bigbuf.size(); i += 8)
+                {
+                    x += 0x9E3779B97F4A7C15ull;
+                    uint64_t z = x;
+                    z = (z ^ (z >> 30)) * 0xBF58476D1CE4E5B9ull;
+                    z = (z ^ (z >> 27)) * 0x94D049BB133111EBull;
+                    z ^= z >> 31;
+                    memcpy(&bigbuf[i], &z, 8);
+                }
+                bigsrc = Src(bigbuf.data(), bigbuf.size());
+                s = &bigsrc;
+                in_big = true;
+                big_at = cdepth;
+                big = true;
+                if (n == 65535)
+                    cap16 = true;
             }
-            if ((long)n > budget)
-                n = budget > 0 ? (size_t)budget : 0;
-            budget -= (long)n;
+            else
+            {
+                switch (cls)
+                {
+                case 0:
+                    n = 0;
+                    break;
+                case 1:
+                    n = 1;
+                    break;
+                case 2:
+                    n = (size_t)s->range(2, 4);
+                    break;
+                default:
+                    n = (size_t)s->range(5, maxn);
+                }
+                if ((long)n > budget)
+                    n = budget > 0 ? (size_t)budget : 0;
+                budget -= (long)n;
+            }
         }
         cdepth++;
         if (n)
@@ -372,7 +382,7 @@ template <class T> void gen(Gen &g, T &out);
 
 inline void gen_string(Gen &g, std::string &out)
 {
-    size_t n = g.begin_container();
+    size_t n = g.begin_container(0);
     static const char alpha[] = {0, 'a', 'b', ' ', (char)0xFF, (char)0x80, '\n', 'Z'};
     int style = (int)g.s->below(3);
     out.resize(n);
@@ -398,7 +408,7 @@ template <class T> void gen(Gen &g, T &out)
         gen_string(g, out);
     else if constexpr (is_vec<T>::value)
     {
-        size_t n = g.begin_container();
+        size_t n = g.begin_container(depth<typename T::value_type>());
         out.clear();
         out.reserve(n);
         for (size_t i = 0; i < n; i++)
@@ -411,7 +421,7 @@ template <class T> void gen(Gen &g, T &out)
     }
     else if constexpr (is_map<T>::value)
     {
-        size_t n = g.begin_container();
+        size_t n = g.begin_container(max_depth<typename T::key_type, typename T::mapped_type>());
         out.clear();
         for (size_t i = 0; i < n; i++)
         {
@@ -758,7 +768,7 @@ template <class T> void make_case(Src &s, Case &c, const char *tname, TwoValues<
     g.budget = budget;
     if constexpr (!is_scalar<T>)
     {
-        uint64_t den = vpbt::tier() ? 24 : 96;
+        uint64_t den = vpbt::tier() ? 12 : 48;
         g.want_big = s.below(den) == den - 1; // a zeroed choice sequence stays ordinary
     }
     gen(g, tv.a);
